@@ -125,7 +125,11 @@ func observeRefs(d *document.Document) (*refObs, error) {
 	return o, nil
 }
 
-func foreignRefsDoc(withNumbering bool) []byte {
+// foreignVariantIDs: ids the foreign styles part may define besides its own - they differ from ids the library or the
+// histories use only in letter case, or by a quote style
+var foreignVariantIDs = []string{"heading1", "HEADING2", "cust0", "CUST1", "code", "normal", "fstyle1"}
+
+func foreignRefsDoc(withNumbering bool, variants ...string) []byte {
 	var zb bytes.Buffer
 	zw := zip.NewWriter(&zb)
 	add := func(n, s string) { w, _ := zw.Create(n); w.Write([]byte(s)) }
@@ -140,7 +144,7 @@ func foreignRefsDoc(withNumbering bool) []byte {
 		add("word/numbering.xml", `<?xml version="1.0"?><w:numbering xmlns:w="`+wNS+`"><w:abstractNum w:abstractNumId="5"><w:lvl w:ilvl="0"><w:start w:val="1"/><w:numFmt w:val="decimal"/><w:lvlText w:val="%1)"/></w:lvl></w:abstractNum><w:num w:numId="9"><w:abstractNumId w:val="5"/></w:num></w:numbering>`)
 	}
 	add("word/document.xml", `<?xml version="1.0"?><w:document xmlns:w="`+wNS+`"><w:body><w:p><w:pPr><w:pStyle w:val="FStyle1"/></w:pPr><w:r><w:t>foreign</w:t></w:r></w:p>`+numPara+`<w:sectPr/></w:body></w:document>`)
-	add("word/styles.xml", `<?xml version="1.0" encoding="UTF-8" standalone="yes"?>`+"\n"+`<w:styles xmlns:w="`+wNS+`"><w:docDefaults><w:rPrDefault><w:rPr><w:sz w:val="21"/></w:rPr></w:rPrDefault></w:docDefaults><w:style w:type="paragraph" w:default="1" w:styleId="Normal"><w:name w:val="Normal"/></w:style><w:style w:type="paragraph" w:styleId="FStyle1"><w:name w:val="f1"/></w:style><w:style w:type="paragraph" w:styleId="FStyle2"><w:name w:val="f2"/></w:style></w:styles>`)
+	add("word/styles.xml", `<?xml version="1.0" encoding="UTF-8" standalone="yes"?>`+"\n"+`<w:styles xmlns:w="`+wNS+`"><w:docDefaults><w:rPrDefault><w:rPr><w:sz w:val="21"/></w:rPr></w:rPrDefault></w:docDefaults><w:style w:type="paragraph" w:default="1" w:styleId="Normal"><w:name w:val="Normal"/></w:style><w:style w:type="paragraph" w:styleId="FStyle1"><w:name w:val="f1"/></w:style><w:style w:type="paragraph" w:styleId="FStyle2"><w:name w:val="f2"/></w:style>`+variantStyles(variants)+`</w:styles>`)
 	add("word/_rels/document.xml.rels", `<?xml version="1.0"?><Relationships xmlns="http://schemas.openxmlformats.org/package/2006/relationships">`+rels+`</Relationships>`)
 	zw.Close()
 	return zb.Bytes()
@@ -148,6 +152,15 @@ func foreignRefsDoc(withNumbering bool) []byte {
 
 // customPool: ids of custom styles; besides plain ones, ids that are a beginning or an extension of an id that the
 // library or the foreign package defines, and ids with characters that need escaping in an attribute
+func variantStyles(ids []string) string {
+	s := ""
+	for i, id := range ids {
+		q := []string{`"`, `'`}[i%2]
+		s += `<w:style w:type="paragraph" w:styleId=` + q + id + q + `><w:name w:val="v` + id + `"/></w:style>`
+	}
+	return s
+}
+
 var customPool = []string{"Cust0", "Cust1", "Cust2", "Cust3", "Cust", "Cust00", "Code", "Heading", "Heading10", "FStyle", "FStyle12", "Sub", "TOC", "Norma", "a\"b<c>&d", "é 中"}
 
 func runRefsCase(r *rng) (coq string, ops []refOp, fails []OracleFailure, nOK int) {
@@ -156,7 +169,15 @@ func runRefsCase(r *rng) (coq string, ops []refOp, fails []OracleFailure, nOK in
 	init := ""
 	if r.chance(35) {
 		w.foreignNumbering = r.chance(60)
-		d, err := document.OpenFromMemory(io.NopCloser(bytes.NewReader(foreignRefsDoc(w.foreignNumbering))))
+		var variants []string
+		if r.chance(50) {
+			for _, v := range foreignVariantIDs {
+				if r.chance(50) {
+					variants = append(variants, v)
+				}
+			}
+		}
+		d, err := document.OpenFromMemory(io.NopCloser(bytes.NewReader(foreignRefsDoc(w.foreignNumbering, variants...))))
 		if err != nil {
 			return "", nil, []OracleFailure{{Clause: "open_foreign", Detail: err.Error()}}, 0
 		}
@@ -168,8 +189,8 @@ func runRefsCase(r *rng) (coq string, ops []refOp, fails []OracleFailure, nOK in
 		for _, u := range used {
 			w.used[u] = true
 		}
-		init = fmt.Sprintf("(mkR %s [] (Some %s) false %s)", w.atomList(managerIDs(d)), w.atomList([]string{"Normal", "FStyle1", "FStyle2"}), w.atomList(used))
-		ops = append(ops, refOp{Kind: "OpenForeign", N: map[bool]int{true: 1, false: 0}[w.foreignNumbering]})
+		init = fmt.Sprintf("(mkR %s [] (Some %s) false %s)", w.atomList(managerIDs(d)), w.atomList(append([]string{"Normal", "FStyle1", "FStyle2"}, variants...)), w.atomList(used))
+		ops = append(ops, refOp{Kind: "OpenForeign", N: map[bool]int{true: 1, false: 0}[w.foreignNumbering], ID: strings.Join(variants, ",")})
 	} else {
 		w.doc = document.New()
 		init = fmt.Sprintf("(new_doc %s)", w.atomList(managerIDs(w.doc)))
